@@ -89,7 +89,14 @@ class World:
                 self.next_cid += 1
                 self.write(p, self.next_cid, rng.choice(SIZES))
             elif op == 'touch':
-                self.fresh_mtime(rng.choice(files))
+                p = rng.choice(files)
+                if rng.random() < 0.25:
+                    # a time before 1970 or far in the future, with a sub-second part
+                    self.mtime_counter += 1
+                    t = rng.choice([-1250000000, -473385599999999500, 2**33 * 10**9 + 5]) + self.mtime_counter * 1000
+                    os.utime(p, ns=(t, t), follow_symlinks=False)
+                else:
+                    self.fresh_mtime(p)
             elif op == 'nsmod':
                 # rewritten in place: same inode, same size, mtime differing only in its sub-second part
                 p = rng.choice(files)
